@@ -66,6 +66,9 @@ def build(peer, req, kind, value):
         return peer.response(req, vbs)
     if kind == "s":
         return peer.response(req, vbs, request_id=(req["request_id"] + 1) % 2 ** 31)
+    if kind == "n":
+        # the matching reply, but it says noSuchInstance (the call ends with an exception, not a value)
+        return peer.response(req, [ber.varbind(tuple(req["varbinds"][0][0]), ber.NOSUCHINSTANCE)])
     return peer.response(req, vbs)[:7]
 
 
